@@ -181,6 +181,7 @@ func knownInfallible(callee string, call *ssa.Call) (bool, string) {
 
 // c12TimerOutsideLoop: one deadline per request.
 func c12TimerOutsideLoop(c *Ctx) {
+	initSignalFields(c.P)
 	p, r := c.P, c.R
 	r.Rule("C12/REQUEST-DEADLINE", "the loop that waits for a response receives its timeout from a timer created once before the loop: a timer armed inside the loop (time.After / NewTimer per iteration) is restarted by every unrelated message, so a chatty or hostile server postpones the timeout for ever", 1)
 	fn := p.Func("", "Client.waitResponse")
